@@ -62,6 +62,9 @@ func (c20) Run(e *Env) {
 		var ms []string
 		for _, o := range obs {
 			ms = append(ms, o.Members...)
+			if o.Kind == "counter" && strings.HasPrefix(o.Name, "lambda.c.") {
+				ms = append(ms, strings.TrimPrefix(o.Name, "lambda.c.")) // counter datapoints are named after themselves
+			}
 		}
 		sort.Strings(ms)
 		return strings.Join(ms, ",")
